@@ -321,8 +321,9 @@ def deco_of(fn):
 
 
 def generate(repo):
+    import pynorm
     path = os.path.join(repo, 'src', 'ansi_string', 'ansi_string.py')
-    tree = ast.parse(open(path).read())
+    tree = ast.parse(open(path).read())               # the delegation table is read from the source as written
     string_fns = class_methods(tree, 'AnsiString')
     str_fns = class_methods(tree, 'AnsiStr')
     string_sigs = {f.name: Sig(f) for f in string_fns}
@@ -350,7 +351,7 @@ def generate(repo):
         w('')
     table('ansiStr', str_fns, str_sigs, string_sigs, 'the methods of `class AnsiStr(str)` in source order; `self._s` is an `AnsiString`')
     table('ansiString', string_fns, string_sigs, None, 'the methods of `class AnsiString` in source order; `self._s` is a `str`')
-    fns = {f.name: f for f in string_fns}
+    fns = {f.name: f for f in class_methods(pynorm.normalize(ast.parse(open(path).read())), 'AnsiString')}   # loops and guards: normalised
     for lean_name, py in (('formatMatchingLoop', 'format_matching'), ('unformatMatchingLoop', 'unformat_matching')):
         r = match_loop(string_sigs, fns[py]) if py in fns else None
         w('/-- `AnsiString.%s`: the loop over `re.finditer`, or `none` if the body is not of that form -/' % py)
@@ -391,7 +392,7 @@ def generate(repo):
             w(pylist.translate(table[py], ln, params, ret, '`%s` translated by loop idiom (harness/pylist.py); `is` is identity (`.id`)' % py))
         else:
             w('def %sOk : Bool := false\n' % ln)
-    ftree = ast.parse(open(os.path.join(repo, 'src', 'ansi_string', 'ansi_format.py')).read())
+    ftree = pynorm.normalize(ast.parse(open(os.path.join(repo, 'src', 'ansi_string', 'ansi_format.py')).read()))
     cfn = {f.name: f for f in class_methods(ftree, '_AnsiControlFn')}
     w(pyint.translate_rgb(cfn['rgb']) if 'rgb' in cfn else 'def rgbChannelsOk : Bool := false\n')
     w('end Gen')
@@ -435,9 +436,9 @@ def generate_methods(repo):
     """Generated/Methods/<Name>.lean: object-mutating methods translated statement by statement (pyobj.py), one
     file per method (so that a translation that does not type-check breaks the theorems about that method and
     about its callers, nothing else), and Generated/Methods.lean importing them all"""
-    import pyobj, re
+    import pyobj, re, pynorm
     path = os.path.join(repo, 'src', 'ansi_string', 'ansi_string.py')
-    tree = ast.parse(open(path).read())
+    tree = pynorm.normalize(ast.parse(open(path).read()))
     fns = {f.name: f for f in class_methods(tree, 'AnsiString')}
     pfns = {f.name: f for f in class_methods(tree, '_AnsiSettingPoint')}
     ifns = {f.name: f for f in class_methods(tree, '_AnsiSettingsIterator')}
